@@ -203,6 +203,7 @@ pub fn check_default(kind: Kind, clock: Clock, spec: &[i128]) -> Result<(), Stri
     let want = if kind == Kind::Date && matches!(spec[0], 9 | 10 | 11 | 12 | 14) { None } else { want };
     let _ = ();
     let want = if kind == Kind::Ora && spec[0] == 12 { None } else { want };
+    // check_parse goes through T::parse, a fresh Formatter and a long-lived Formatter
     let res = check_parse(kind, &pic, &text, want);
     ad::clock_clear();
     res.map_err(|m| format!("with the current local date {:04}-{:02}-{:02} (+{}us): {m}", r.y, r.m, r.d, clock.tod))
@@ -612,7 +613,7 @@ pub fn run(ctx: &Ctx) -> (Stats, Report) {
     let _ = Time::ZERO;
 
     let rep = Report {
-        rule: format!("The injected clock (cargo feature verif-hooks, thread-local) ranges over ALL 3,652,059 possible current local dates x {} time(s) of day (thorough: midnight, 00:00:00.5, 12:34:56.789012, 23:59:59.999999 under every date; quick: one of those five classes incl. 00:00:00.000001 per date, rotating with the date). Under each clock: partial pictures \"\", DD (1, 28..31, month length +-), MM, MM-DD, MON DD, YYYY, YYYY-DD, DDD (incl. 365/366), Y / YY / YYY with value classes (all values for Y/YY in thorough) alone and with month/day, with a leading '+' and with a '-' (which denotes no date), HH24:MI, HH:MI AM with empty text, SS, .FF, DD HH:MI PM, an omission grid (12 time-part pictures in several field orders, meridian before or after the 12-hour field, text ending after every token; also swept exhaustively under 7 clocks), rotated over Date / Timestamp / OracleDate; Date::now, Timestamp::now, OracleDate::now, Timestamp::try_from(Time), OracleDate::try_from(Time); the same constructors with the clock inside a leap second (second 59 + 1,000,000..1,999,999 us: an error or an in-range value within those two seconds). Oracle: model defaults (year and month from the clock, day 1, time 0, 12 for an omitted 12-hour field, short years completed with the leading digits of the clock year) validated by the walked calendar (so DD=31 in a 30-day current month, DDD=366 in a common current year, a completed year 0 are errors). Complete pictures (7 shapes x date pool) must give the identical value under 9 different clocks incl. both range ends. Non-trivial = clock at a month end / year end / century-end year / 29 Feb / year < 1000 / year 9999; distinct by enumeration.", tods.len()),
+        rule: format!("The injected clock (cargo feature verif-hooks, thread-local) ranges over ALL 3,652,059 possible current local dates x {} time(s) of day (thorough: midnight, 00:00:00.5, 12:34:56.789012, 23:59:59.999999 under every date; quick: one of those five classes incl. 00:00:00.000001 per date, rotating with the date). Under each clock: partial pictures \"\", DD (1, 28..31, month length +-), MM, MM-DD, MON DD, YYYY, YYYY-DD, DDD (incl. 365/366), Y / YY / YYY with value classes (all values for Y/YY in thorough) alone and with month/day, with a leading '+' and with a '-' (which denotes no date), HH24:MI, HH:MI AM with empty text, SS, .FF, DD HH:MI PM, an omission grid (12 time-part pictures in several field orders, meridian before or after the 12-hour field, text ending after every token; also swept exhaustively under 7 clocks), rotated over Date / Timestamp / OracleDate; Date::now, Timestamp::now, OracleDate::now, Timestamp::try_from(Time), OracleDate::try_from(Time); the same constructors with the clock inside a leap second (second 59 + 1,000,000..1,999,999 us: an error or an in-range value within those two seconds). Every parse goes through T::parse, a fresh Formatter and a long-lived Formatter (compiled once per thread and picture, so it has parsed under many other current dates before). Oracle: model defaults (year and month from the clock, day 1, time 0, 12 for an omitted 12-hour field, short years completed with the leading digits of the clock year) validated by the walked calendar (so DD=31 in a 30-day current month, DDD=366 in a common current year, a completed year 0 are errors). Complete pictures (7 shapes x date pool) must give the identical value under 9 different clocks incl. both range ends. Non-trivial = clock at a month end / year end / century-end year / 29 Feb / year < 1000 / year 9999; distinct by enumeration.", tods.len()),
         assumptions: vec!["the hook only replaces the value of chrono::Local::now().naive_local() at the six places the library reads it; with the feature off the code is the original".into()],
         exhaustive: true,
         extra: Default::default(),
